@@ -171,7 +171,7 @@ def selection_suite(rep: Report, which: str, consts: dict, registry=None, pool=N
         m = run_tlc("RuleSelect", cfg_text(constants=dict(Source=which, **consts),
                                            invariants=["RefMapPrecedence", "SelectedMatches", "SelectedAreRules",
                                                        "DenyWins", "AllowCovers", "ExactlyAllowLessDeny"]),
-                    env=env, timeout=3000, workers=WORKERS, heap="8g")
+                    env=env, timeout=3000 if consts["MaxTotal"] < 4 or which == "synthetic" else 14400, workers=WORKERS, heap="8g")
     finally:
         if d:
             shutil.rmtree(d, ignore_errors=True)
